@@ -1010,3 +1010,246 @@ def ob_total_cost_fold(ctx, bits=16, rate_vectors=None):
         res.status, res.detail = 'inconclusive', 'vacuous'
     res.time = time.time() - t0
     return res
+
+
+def ob_reachable_gate(ctx, k, closed, bits):
+    """C01: ReachableConstraint rejects an insertion exactly when one of the two new legs is flagged unreachable
+    (negative matrix entry): prev -> target, and target -> next when a next activity exists."""
+    name = f'reachable_gate[k={k},{"closed" if closed else "open"}]'
+    res = Result(name)
+    res.bounds = f'tour of {k} jobs ({"closed" if closed else "open"}), every leg, symbolic target; matrix entries in [-2^{bits}, 2^{bits}] (negative = unreachable)'
+    t0 = time.time()
+    for p in range(k + 1):
+        env = drivers.Env(ctx.prog, ctx.layout, bits)
+        env.allow_negative_matrix = True
+        eng = symex.Engine(ctx.prog, ctx.layout, env)
+        holder = {}
+
+        def body(st, p=p, env=env, eng=eng, holder=holder):
+            env.assumptions.clear()
+            spec = TourSpec(env, k, closed)
+            target = spec.sym_job('target')
+            holder['spec'], holder['target'] = spec, target
+            rc = spec.build()
+            acts = env.tour_activities(rc)
+            tgt_act = env.activity(target['loc'], target['dur'], target['tws'], target['twe'], env.sym_f('tgt_arr'), env.sym_f('tgt_dep'))
+            acts_vec = env.field(env.field(env.field(rc, 'context::RouteContext', 'route'), 'route::Route', 'tour'), 'solution::tour::Tour', 'activities')
+            actx = activity_ctx(env, p, RefV(acts_vec, p), RefV(Cell(tgt_act), 0), RefV(acts_vec, p + 1) if p + 1 < len(acts) else None)
+            con = env.struct('reachable::ReachableConstraint', transport=env.arc_dyn_transport(), code=Agg('struct', [IV(5, 'i32')], 'goal::ViolationCode'))
+            fns = ctx.prog.find_method('ReachableConstraint', 'evaluate', trait='FeatureConstraint')
+            if len(fns) != 1:
+                raise Inconclusive('ReachableConstraint::evaluate not found')
+            return eng.exec_fn(st, fns[0], [RefV(Cell(con), 0), RefV(Cell(move_ctx_activity(env, rc, actx)), 0)])
+
+        paths = eng.explore(body)
+        res.paths += len(paths)
+        res.functions |= eng.functions_used
+        saw_acc = saw_rej = False
+        for st, out in paths:
+            spec, target = holder['spec'], holder['target']
+            nodes = spec.nodes()
+            prev_loc = nodes[p][0]
+            next_loc = nodes[p + 1][0] if p + 1 < len(nodes) else None
+            legs = [env.Dist(prev_loc.t, target['loc'].t)] + ([env.Dist(target['loc'].t, next_loc.t)] if next_loc is not None else [])
+            extra = [z3.And(l >= -env.bound, l <= env.bound) for l in legs]
+            if out is None:
+                if not no_panic(ctx, res, env, st, extra, what=name):
+                    break
+                continue
+            accepted = zs(out.discr == 0)
+            reachable = z3.And(*[l >= 0 for l in legs])
+            if not decide_claim(ctx, res, env, st, accepted == reachable, extra, what=f'{name} leg {p}: accepted <=> both new legs reachable'):
+                break
+            if not no_panic(ctx, res, env, st, extra, what=name):
+                break
+            saw_acc = saw_acc or witness(ctx, res, env, st, accepted, extra)
+            saw_rej = saw_rej or witness(ctx, res, env, st, z3.Not(accepted), extra)
+        if res.status != 'holds':
+            break
+        res.witnesses += int(saw_acc) + int(saw_rej)
+        if not (saw_acc and saw_rej):
+            res.status, res.detail = 'inconclusive', f'vacuous at leg {p}'
+            break
+    res.time = time.time() - t0
+    return res
+
+
+# ---------------------------------------------------------------------------------------------------------------------
+# feature combinator mechanics (C05 stale flag, C01 constraint chaining)
+
+class RecorderEnv(drivers.Env):
+    """dyn FeatureState / FeatureConstraint objects are recording stubs."""
+
+    def __init__(self, prog, layout):
+        super().__init__(prog, layout, 16)
+        self.calls = []
+        self.violations = {}
+
+    def override(self, engine, st, callee, args, dest_ty):
+        if callee.endswith('RouteState::clear'):
+            store = deref_all(args[0])
+            store.table.clear()
+            self.calls.append('clear')
+            return UnitV()
+        return super().override(engine, st, callee, args, dest_ty)
+
+    def dyn_call(self, engine, st, trait, method, args, dest_ty):
+        obj = args[0]
+        while isinstance(obj, (RefV, ArcV)):
+            obj = obj.load() if isinstance(obj, RefV) else obj.cell.v
+        if trait == 'FeatureState' and method == 'accept_route_state':
+            self.calls.append(obj.tag)
+            rc = deref_all(args[1])
+            # a real state writes its caches through state_mut(): model the write and the staleness it causes
+            state = self.field(rc, 'context::RouteContext', 'state')
+            state.table['written_by_' + obj.tag] = IV(1)
+            cache = self.field(rc, 'context::RouteContext', 'cache')
+            cache.fields[0] = BV(True)
+            return UnitV()
+        if trait == 'FeatureConstraint' and method == 'evaluate':
+            self.calls.append(obj.tag)
+            has = z3.Bool(f'violates_{obj.tag}')
+            v = self.struct('goal::ConstraintViolation', code=Agg('struct', [IV(z3.Int(f'code_{obj.tag}'), 'i32')], 'goal::ViolationCode'),
+                            stopped=BV(z3.Bool(f'stopped_{obj.tag}')))
+            return mk_option(has, v, ty='Option<ConstraintViolation>')
+        return super().dyn_call(engine, st, trait, method, args, dest_ty)
+
+
+from models import deref_all  # noqa: E402
+
+
+def ob_accept_route_state(ctx, n):
+    """C05: accept_route_state_with_states recomputes a tour's caches exactly when the tour is stale: stale => the state
+    store is cleared first, every feature state is invoked exactly once in order, the flag is reset; not stale => nothing
+    is invoked and the store is untouched."""
+    name = f'accept_route_state[states={n}]'
+    res = Result(name)
+    res.bounds = f'{n} feature states (recording stubs that write a cache and thereby re-mark the context stale), stale flag symbolic'
+    t0 = time.time()
+    env = RecorderEnv(ctx.prog, ctx.layout)
+    eng = symex.Engine(ctx.prog, ctx.layout, env)
+    f = ctx.prog.find_free('accept_route_state_with_states')
+    from symex import DynV
+    holder = {}
+
+    def body(st):
+        env.assumptions.clear()
+        env.calls = []
+        spec = TourSpec(env, 1, True)
+        rc = spec.build()
+        stale = z3.Bool('is_stale')
+        env.field(rc, 'context::RouteContext', 'cache').fields[0] = BV(stale)
+        env.state_of(rc).table['old_cache'] = IV(7)
+        states = VecV([ArcV(Cell(DynV(f's{i}'))) for i in range(n)])
+        cell = Cell(rc)
+        try:
+            eng.exec_fn(st, f, [RefV(Cell(states), 0), RefV(cell, 0, True)])
+        finally:
+            st.user_calls = list(env.calls)
+        return cell.v
+
+    paths = eng.explore(body)
+    res.paths = len(paths)
+    res.functions |= eng.functions_used
+    seen = set()
+    for st, out in paths:
+        if out is None:
+            if not no_panic(ctx, res, env, st, what=name):
+                break
+            continue
+        stale = z3.Bool('is_stale')
+        calls = st.user_calls
+        table = env.state_of(out).table
+        flag = env.field(out, 'context::RouteContext', 'cache').fields[0].t
+        is_stale_path = witness(ctx, res, env, st, stale) and not witness(ctx, res, env, st, z3.Not(stale))
+        res.claims += 1
+        if is_stale_path:
+            ok = calls == ['clear'] + [f's{i}' for i in range(n)] and 'old_cache' not in table and all(f'written_by_s{i}' in table for i in range(n))
+            seen.add('stale')
+        else:
+            ok = calls == [] and 'old_cache' in table and len(table) == 1
+            seen.add('fresh')
+        if not ok:
+            res.status, res.detail = 'violated', f'stale={is_stale_path}: calls {calls}, caches {sorted(table)}'
+            res.counterexample = {'what': name, 'stale': is_stale_path, 'calls': calls, 'caches': sorted(table)}
+            break
+        if not decide_claim(ctx, res, env, st, z3.Not(flag), what=f'{name}: stale flag is reset'):
+            break
+        if not no_panic(ctx, res, env, st, what=name):
+            break
+        res.witnesses += 1
+    if res.status == 'holds' and seen != {'stale', 'fresh'}:
+        res.status, res.detail = 'inconclusive', f'vacuous: paths seen {seen}'
+    res.time = time.time() - t0
+    return res
+
+
+def ob_evaluate_with_constraints(ctx, n):
+    """C01: the combined constraint reports a violation exactly when at least one member does, namely the FIRST violating
+    member's (code and stopped flag), and later members are not consulted after it."""
+    name = f'evaluate_with_constraints[n={n}]'
+    res = Result(name)
+    res.bounds = f'{n} member constraints with symbolic verdicts (violates?, code, stopped)'
+    t0 = time.time()
+    env = RecorderEnv(ctx.prog, ctx.layout)
+    eng = symex.Engine(ctx.prog, ctx.layout, env)
+    f = ctx.prog.find_free('evaluate_with_constraints')
+    from symex import DynV
+    holder = {}
+
+    def body(st):
+        env.assumptions.clear()
+        env.calls = []
+        cons = VecV([ArcV(Cell(DynV(f'c{i}'))) for i in range(n)])
+        try:
+            out = eng.exec_fn(st, f, [RefV(Cell(cons), 0), RefV(Cell(Opaque('move_ctx')), 0)])
+        finally:
+            st.user_calls = list(env.calls)
+        return out
+
+    # UnwrapValue comes from rosomaxa (not in this dump): bind it to "the payload of either variant"
+    orig_override = env.override
+
+    def override(engine, st, callee, args, dest_ty):
+        if callee.endswith('UnwrapValue>::unwrap_value'):
+            cf = args[0]
+            v = cf.variant()
+            if v is None:
+                v = 0 if engine.split_bool(st, cf.discr == 0) else 1
+            return cf.payload[v][0]
+        return orig_override(engine, st, callee, args, dest_ty)
+    env.override = override
+
+    paths = eng.explore(body)
+    res.paths = len(paths)
+    res.functions |= eng.functions_used
+    for st, out in paths:
+        if out is None:
+            if not no_panic(ctx, res, env, st, what=name):
+                break
+            continue
+        viol = [z3.Bool(f'violates_c{i}') for i in range(n)]
+        calls = st.user_calls
+        # expected: first violating index
+        exp_some = z3.Or(*viol) if viol else z3.BoolVal(False)
+        claims = [zs(out.discr == 1) == exp_some]
+        if out.payload.get(1):
+            v = out.payload[1][0]
+            code = env.field(v, 'goal::ConstraintViolation', 'code').fields[0].t
+            stopped = env.field(v, 'goal::ConstraintViolation', 'stopped').t
+            for i in range(n):
+                first = z3.And(viol[i], *[z3.Not(viol[j]) for j in range(i)])
+                claims.append(z3.Implies(z3.And(out.discr == 1, first), z3.And(code == z3.Int(f'code_c{i}'), stopped == z3.Bool(f'stopped_c{i}'))))
+        if not decide_claim(ctx, res, env, st, z3.And(*claims), what=f'{name}: first violation wins'):
+            break
+        res.claims += 1
+        if calls != [f'c{i}' for i in range(len(calls))]:
+            res.status, res.detail = 'violated', f'members consulted out of order: {calls}'
+            break
+        if not no_panic(ctx, res, env, st, what=name):
+            break
+        res.witnesses += int(witness(ctx, res, env, st, z3.BoolVal(True)))
+    if res.status == 'holds' and res.witnesses == 0:
+        res.status, res.detail = 'inconclusive', 'vacuous'
+    res.time = time.time() - t0
+    return res
